@@ -56,6 +56,10 @@ def run(pid, tier, seed, extra_model=None):
         scheds += directed.c06_gas_overflow_family() + directed.d14_family()
     if pid in ("C01", "C05", "C08"):
         scheds += directed.pool_expiry_family(tier)
+    if pid in ("C08", "C05", "C06"):
+        scheds += directed.pool_failed_predecessor_family()
+    if pid in ("C05", "C03"):
+        scheds += directed.zero_timestamp_family()
     # the committed directed corpus rides along
     for path in sorted(glob.glob(os.path.join(common.ROOT, "corpus", "*.ndjson"))):
         for line in open(path):
